@@ -1287,9 +1287,28 @@ pub fn main(ctx: &Ctx) -> i32 {
     let work = std::path::Path::new(VERIF_ROOT).join("work").join(format!("{}-{}-{}", ctx.id, ctx.tier.name(), std::process::id()));
     let failh = match crate::c09h::start_node(&work, ctx.seed) {
         Ok((mut cluster, target)) => {
+            // saved replays of this tier first (regression)
+            let mut saved_fail = None;
+            for p in saved_replays(&ctx.id) {
+                if read_replay::<Case>(&p).is_ok() {
+                    continue;
+                }
+                if let Ok(hc) = read_replay::<crate::c09h::HCase>(&p) {
+                    let rep = crate::c09h::run_case(&hc, &target);
+                    stats.label("saved_replay_rerun");
+                    stats.record(&hc, &rep);
+                    if let Verdict::Violation(m) = &rep.verdict {
+                        saved_fail = Some(Failure { case: hc, message: format!("regression replay {}: {}", p.display(), m) });
+                        break;
+                    }
+                }
+            }
             let n_h = ctx.tier.pick(300u32, 6_000u32);
             let t2 = target.clone();
-            let f = run_cases(ctx, &stats, crate::c09h::case_strategy as fn() -> _, n_h, 8, 400, move |c| crate::c09h::run_case(c, &t2));
+            let f = match saved_fail {
+                Some(f) => Some(f),
+                None => run_cases(ctx, &stats, crate::c09h::case_strategy as fn() -> _, n_h, 8, 400, move |c| crate::c09h::run_case(c, &t2)),
+            };
             cluster.cleanup();
             f
         }
